@@ -57,6 +57,8 @@ def cases(seed, tier):
         nontopo = (k % 9 == 4)
         st = trees.random_structure(rng, kind=kind, max_branches=10 if tier == "quick" else 12,
                                     max_cells=3 if tier == "quick" else 4, nmax=5, nontopo=nontopo)
+        if k % 12 in (7, 11):
+            st = trees.point_network(rng, mixed=(k % 12 == 11))
         ncomp = trees.total_comps(st)
         p = trees.passive_params(rng, ncomp, hetero=(k % 5 != 0))
         case = {
